@@ -267,6 +267,29 @@ def insertion_points(doc):
     return sorted(set(pts))
 
 
+def text_points(doc):
+    """offsets in text outside pre elements, outside tags and outside raw-text elements (any position of the
+    whitespace between elements, not only token boundaries)"""
+    pts, pos, inpre = [], 0, False
+    for m in re.finditer(rb"<(/?)([a-z]+)[^>]*>", doc):
+        if not inpre and pos <= m.start():
+            pts += range(pos, m.start() + 1)
+        name, close = m.group(2), bool(m.group(1))
+        pos = m.end()
+        if name == b"pre":
+            inpre = not close
+        elif name in (b"script", b"style", b"noscript") and not close:
+            e = doc.find(b"</" + name, m.end())
+            pos = len(doc) + 1 if e < 0 else e
+            pos = max(pos, m.end())
+            # skip to the end tag of the raw-text element: nothing may be inserted in its content
+            mm = re.compile(rb"</" + name + rb"[^>]*>").search(doc, m.end())
+            pos = mm.start() if mm else len(doc) + 1
+    if pos <= len(doc) and not inpre:
+        pts += range(pos, len(doc) + 1)
+    return sorted(set(pts))
+
+
 def gen(ctx):
     rng = ctx.rng
     thorough = ctx.tier == "thorough"
@@ -347,11 +370,20 @@ def gen(ctx):
         p = expand(payload_spec(rng, n))
         doc = py_armor(p)
         # all insertion points are taken on the original document (never inside inserted markup)
-        pts = insertion_points(doc)
-        for at in sorted((rng.choice(pts) for _ in range(rng.choice([1, 1, 2, 4]))), reverse=True):
-            doc = doc[:at] + rng.choice(MARKUP) + doc[at:]
+        if i % 3 == 2:
+            # anywhere in the text between elements; a lone '<' would join what follows it, so the inserted markup
+            # is followed by a space when it ends in text
+            pts = [x for x in text_points(doc) if x >= len(STATE["bs"])]
+            for at in sorted((rng.choice(pts) for _ in range(rng.choice([1, 1, 2, 4]))), reverse=True):
+                doc = doc[:at] + rng.choice(MARKUP + [b"AT&amp;T", b"&lt;pre&gt;", b"\x00", b"caf\xc3\xa9"]) + b" " + doc[at:]
+            kind = "outside-text"
+        else:
+            pts = insertion_points(doc)
+            for at in sorted((rng.choice(pts) for _ in range(rng.choice([1, 1, 2, 4]))), reverse=True):
+                doc = doc[:at] + rng.choice(MARKUP) + doc[at:]
+            kind = "outside-markup"
         sc, rb = rs(rng)
-        add("dec %s %s %s" % (sc, rb, doc_tokens(doc)), "outside-markup", ("same", p))
+        add("dec %s %s %s" % (sc, rb, doc_tokens(doc)), kind, ("same", p))
     p = expand("g%d.3" % (el + 100))
     doc = py_armor(p).replace(b"</pre>\n<pre>", b"</pre><hr><!-- x --><p class=\"a\">text</p>\n<pre>")
     add("dec 0 4096 %s" % doc_tokens(doc), "outside-markup-big", ("same", p))
@@ -478,7 +510,7 @@ def adv_doc(rng):
         d = bytearray(py_armor(p)[len(STATE["bs"]) - rng.choice([0, 0, 20]):])
         n_ins = rng.choice([1, 2, 3, 6])
     else:
-        d = bytearray()
+        d = bytearray(rng.choice([b"", b"<pre>0", b"<pre>0", b"<pre>0QUJD", b"<pre>\n0QUJD\n", b"<PRE>0", b"<pre>0QUJD</pre>"]))
         n_ins = rng.randrange(1, 14)
     for _ in range(n_ins):
         at = rng.randrange(0, len(d) + 1)
@@ -568,6 +600,11 @@ def gen_adversarial(ctx, add):
         add("ahead %d %s %d %s" % (k, rng.choice(["1", "3", "16", "4096", "2,5"]), rng.choice([0, 1, 2, 5, 50, 100000]), doc_tokens(doc)), "read-ahead")
     for doc in fixed[:20]:
         add("ahead %d %d %d %s" % (rng.choice([1, 5, 64]), rng.choice([1, 4, 4096]), rng.choice([0, 1, 3]), doc_tokens(doc)), "read-ahead")
+    # a long document: after the first Read the decoder has consumed one element's worth, not the document
+    p = expand("g100.1")
+    long_doc = STATE["bs"] + b"<pre>\n0" + base64.b64encode(p) + b"\n</pre>\n" + b"<p>filler</p>\n" * 14000 + b"<pre>QUJD</pre>" + STATE["be"]
+    add("ahead 2048 16 1 %s" % doc_tokens(long_doc), "read-ahead-long")
+    add("ahead 1000 4096 0 %s" % doc_tokens(long_doc), "read-ahead-long")
 
 
 def consts_crosscheck(ctx, boiler):
